@@ -1,4 +1,4 @@
 INIT Init
 NEXT Next
-CONSTANT R = 3
+CONSTANT R = 60
 INVARIANT NativeOK
